@@ -35,6 +35,7 @@ func srvGenCfg(r *rand.Rand, tier, flavour string) *SrvGenCfg {
 		cfg.WFlush, cfg.WGet, cfg.WViol = 80, 120, 10
 		cfg.GetAfterOps = 250
 		cfg.WAddNI = 25
+		cfg.WReadd = 150
 		p.Rich = true
 	}
 	return cfg
